@@ -112,6 +112,16 @@ def run(repo: Repo, rep: Report, tier: str) -> None:
             rep.check(ok, "C10-R2", f"{m.short} inspects {s}", "inspected" if ok else
                       f"{m.short} can declare a constant dead while {s} still references it", where or m.loc())
 
+    from .util import canon as _c2
+    for m in markers:
+        cm2 = _c2(m)
+        for n2 in walk_local(m.node):
+            if isinstance(n2, ast.Continue):
+                par2 = cm2.pm.get(n2)
+                t2 = cm2.text(par2.test) if isinstance(par2, ast.If) and n2 in par2.body else "unconditional"
+                ok2 = "isinstance(" not in t2 and "type(" not in t2
+                rep.check(ok2, "C10-R2", f"{m.short}: the scan for other consumers skips a node only for identity/liveness reasons",
+                          t2[:90] if ok2 else f"nodes are skipped by kind (`{t2[:80]}`): effect nodes (property writes, memory writes, ...) no longer keep the constant they read alive", m.loc(n2))
     # ---------------- R3 ---------------------------------------------------------------
     rep.rule(
         "C10-R3",
